@@ -268,7 +268,7 @@ def apply_dispatch(cx):
             if c.fn is not fn:
                 continue
             args = call_args(cx, c)
-            ok = all(contains(("vfield", ANY, "core::ops::control_flow::ControlFlow::Continue", 0), x) for x in args[1:3])
+            ok = all(contains(("vfield", ANY, "core::ops::control_flow::ControlFlow::Continue", 0), x) or contains(("vfield", ANY, "core::result::Result::Ok", 0), x) for x in args[1:3])
             cx.check(ok, cx.site_key(c, "apply_conf"), "apply_conf receives exactly the Ok payload of the changer call (found %s)" % show(args[1])[:100], c)
             if fn is ac:
                 nx = args[3]
@@ -451,7 +451,7 @@ def _replay_rest(cx, rf):
     gr = cx.pg(rf)
     ej = {c.block for sp, c in cx.prog.calls_out[rf.key] if c.kind == "call" and sp.endswith("Changer::enter_joint")}
     cx.check(len(ej) == 1, "replay:enter_joint", "confchange::restore enters the joint configuration at one site")
-    cont = [l for n_ in range(len(gr.nodes)) for _, ls in gr.edges[n_] or [] for l in ls if l[0] == "in" and l[2] == frozenset(["Continue"])]
+    cont = [l for n_ in range(len(gr.nodes)) for _, ls in gr.edges[n_] or [] for l in ls if l[0] == "in" and (l[2] == frozenset(["Continue"]) or l[2] == frozenset(["Ok"]) and l[1][0] == "call")]
     def has_outgoing(l, want):
         return l[0] == "is" and l[2] is (not want) and l[1][0] == "call" and l[1][1].endswith("is_empty") and any(x[0] == "tfield" and x[2] == 0 for x in walk(l[1]))
     okj, nj = gr.after_edge_must_pass(lambda lits: any(has_outgoing(l, True) for l in lits), lambda b: b in ej, assume=cont)
@@ -478,17 +478,20 @@ def _replay_rest(cx, rf):
     cx.check(n >= 2, "floor", "restart and snapshot install both restore the configuration through confchange::restore")
 
 
-@obligation("CONF.auto_leave", ["C09"], floor=1, kind="guard + order",
+@obligation("CONF.auto_leave", ["C09", "C05", "C01"], floor=1, kind="guard + order",
             why="an auto-leave joint configuration must be left by the leader once applied, without clobbering another pending change")
 def auto_leave(cx):
     sites = [s for s in cx.prog.writes.get(PCI, []) if s.kind == "write" and "stmt" in s.data and any(l[0] == "is" and l[2] is True and is_f(l[1], "Configuration.auto_leave") for l in cx.guard_lits(s))]
-    cx.check(len(sites) == 1, "site", "the apply hook proposes the automatic leave at one site")
+    cx.check(len(sites) >= 1, "site", "the apply hook proposes the automatic leave")
     for s in sites:
         g = cx.pg(s.fn)
+        # the new applied index: a parameter of the hook, or (hook spliced into its caller) what the caller hands to
+        # the applied-index setter
+        newapp = [call_args(cx, c)[1] for sp, c in cx.prog.calls_out[s.fn.key] if c.kind == "call" and (sp.endswith("RaftLog::applied_to") or sp.endswith(cx.sfx("RaftLog::applied_to_unchecked")))]
         def leader(l):
             return l[0] == "in" and is_f(l[1], STATE) and l[2] == frozenset(["Leader"])
-        def window_hi(l):
-            return l[0] == "is" and l[2] is False and l[1][0] == "bin" and l[1][1] == "Lt" and l[1][2][0] == "param" and is_f(l[1][3], PCI)
+        def window_hi(l, newapp=newapp):
+            return l[0] == "is" and l[2] is False and l[1][0] == "bin" and l[1][1] == "Lt" and (l[1][2][0] == "param" or l[1][2] in newapp) and is_f(l[1][3], PCI)
         def window_lo(l):
             return l[0] == "is" and l[2] is False and l[1][0] == "bin" and l[1][1] == "Lt" and is_f(l[1][2], PCI)
         require_all(cx, s, cx.site_key(s, "write:" + PCI), "auto-leave only as leader, when the applied index just passed pending_conf_index",
